@@ -172,6 +172,66 @@ def F11():
         os.remove(p); os.rmdir(d)
 
 
+def F14():
+    """a tabular/point field whose own name contains ' @ ' is filtered by its prefix: including exactly
+    'a @ b' does not select the (differing) field, the suite is truthy"""
+    import numpy as np
+    from fieldcompare import FieldDataComparator
+    from fieldcompare.tabular import Table, TabularFields
+    mk = lambda v: TabularFields(Table(num_rows=1), {"a @ b": np.array([v])})
+    suite = FieldDataComparator(mk(1.0), mk(2.0), field_inclusion_filter=lambda n: n == "a @ b")(
+        fieldcomp_callback=lambda c: None)
+    st = [(c.name, c.status.name) for c in suite]
+    fails = bool(suite) or st != [("a @ b", "failed")]
+    return fails, {"report": st, "verdict": bool(suite)}
+
+
+def F15():
+    """C05: raw-appended .vtu whose UInt8 point field contains the bytes </AppendedData>"""
+    import struct
+    from fieldcompare.io import read_field_data
+
+    def raw(arr):
+        b = arr.tobytes()
+        return struct.pack("<I", len(b)) + b
+
+    payload = np.frombuffer(b"ab</AppendedData>c", dtype=np.uint8)
+    n = len(payload)
+    pts = np.zeros((n, 3), dtype=np.float32)
+    pts[:, 0] = np.arange(n)
+    parts = [raw(payload), raw(pts), raw(np.array([0, 1], dtype=np.int32)), raw(np.array([2], dtype=np.int32)),
+             raw(np.array([3], dtype=np.uint8))]
+    offs = [0]
+    for p_ in parts:
+        offs.append(offs[-1] + len(p_))
+    head = f"""<?xml version="1.0"?>
+<VTKFile type="UnstructuredGrid" version="1.0" byte_order="LittleEndian" header_type="UInt32">
+<UnstructuredGrid><Piece NumberOfPoints="{n}" NumberOfCells="1">
+<PointData><DataArray type="UInt8" Name="p" format="appended" offset="{offs[0]}"/></PointData>
+<CellData></CellData>
+<Points><DataArray type="Float32" NumberOfComponents="3" format="appended" offset="{offs[1]}"/></Points>
+<Cells>
+<DataArray type="Int32" Name="connectivity" format="appended" offset="{offs[2]}"/>
+<DataArray type="Int32" Name="offsets" format="appended" offset="{offs[3]}"/>
+<DataArray type="UInt8" Name="types" format="appended" offset="{offs[4]}"/>
+</Cells></Piece></UnstructuredGrid>
+<AppendedData encoding="raw">
+_""".encode()
+    d = tempfile.mkdtemp(prefix="fcv_w_")
+    path = os.path.join(d, "w.vtu")
+    try:
+        with open(path, "wb") as fh:
+            fh.write(head + b"".join(parts) + b"\n</AppendedData>\n</VTKFile>\n")
+        try:
+            f = read_field_data(path)
+            vals = {fl.name: np.asarray(fl.values).tobytes() for fl in f.point_fields}
+            return vals != {"p": payload.tobytes()}, f"point fields read: {vals}"
+        except Exception as e:  # noqa: BLE001
+            return True, f"read raised {type(e).__name__}: {e}"
+    finally:
+        os.remove(path); os.rmdir(d)
+
+
 ALL = {n: f for n, f in globals().items() if n.startswith("F") and n[1:].isdigit() and callable(f)}
 
 if __name__ == "__main__":
